@@ -2324,7 +2324,17 @@ func c17UsageOfConfiguredRoots(p *Prog, r *Report, rule string) {
 	}
 	// the configured roots: the registry's field of type []string (whatever it is called); an element of it is
 	// the value variable of a range over it, or a variable defined as roots[i], or roots[i] itself
-	isRoots := func(e ast.Expr) bool {
+	var isRoots func(e ast.Expr) bool
+	isRoots = func(e ast.Expr) bool {
+		// a parameter of a spliced-in helper that was handed the roots: freeSpace(ctx, r.roots)
+		if id, isId := ast.Unparen(e).(*ast.Ident); isId {
+			if o := objOf(info, id); o != nil && f.Alias != nil {
+				if a, ok := f.Alias[o]; ok {
+					return isRoots(a)
+				}
+			}
+			return false
+		}
 		sel, ok := ast.Unparen(e).(*ast.SelectorExpr)
 		if !ok {
 			return false
